@@ -86,6 +86,7 @@ func c11(c *core.Ctx) string {
 	c11Isolation(c)
 	muxCacheFresh(c, "R-C11-6")
 	c11Restart(c)
+	c11Birth(c)
 	c11SpecEquals(c)
 	// a filter update must be seen by new requests: the default policy reference takes part in the same-policy test (shared with R-C09-6)
 	c.Alias("R-C09-6", "R-C11-9")
